@@ -52,6 +52,7 @@ class CohGen:
             global_serialize=False,                     # D20
             ns_var_default=True,                        # namespaced variable with initialiser (D7, repaired)
             nonconst_print=False,                       # D36 (pybind)
+            nonvirtual_inheritance=True,
             tparam_in_vector=True,      # std::vector<T> with T a class template parameter (pybind universe)
             templated_class_enum_use=(target == 'pybind'),
             unsigned_char_params=(target == 'pybind'),  # D41 (matlab): guard isa(x,'unsigned char') can never hold
@@ -310,10 +311,11 @@ class CohGen:
         base_assignable = True
         cands = [(c, t) for c, t in self.visible_classes() if c['template'] is None]
         if f['inheritance'] and cands and r.random() < 0.35:
-            vc = [(c, t) for c, t in cands if c['virtual']]
+            vc = [(c, t) for c, t in cands if c['virtual'] or f['nonvirtual_inheritance']]
             if vc:
                 bc, base = r.choice(vc)
-                virtual = True
+                # DOCS.md asks for `virtual` on both; the tool also accepts a non-virtual chain
+                virtual = True if bc['virtual'] else (r.random() < 0.3)
                 base_assignable = bc.get('assignable', True)
         if base is None and r.random() < 0.3:
             virtual = True
